@@ -284,4 +284,46 @@ def wellScoped {κ : Type} : List Nat → List (Op κ) → Bool
   | w, .resolve k :: ops => w.contains k && wellScoped w ops
   | w, _ :: ops => wellScoped w ops
 
+/-! ## 5. The function-build flag (`_IN_FUNCTION_BUILD`) -/
+
+/-- `active = flag; flag = active ∪ {name}; try: body finally: flag = active` — the body is any
+    computation on the flag (nested builds included) that may fail at any point. -/
+def bracketed {ε α : Type} (name : String) (body : List String → Except ε α × List String)
+    (flag : List String) : Except ε α × List String :=
+  ((body (name :: flag)).1, flag)
+
+/-- The same with the restore after a bare `yield` (no try/finally): skipped when the body raises. -/
+def unbracketed {ε α : Type} (name : String) (body : List String → Except ε α × List String)
+    (flag : List String) : Except ε α × List String :=
+  match body (name :: flag) with
+  | (.ok a, _) => (.ok a, flag)
+  | (.error e, f') => (.error e, f')
+
+/-- A conversion whose program calls the decorated function `name` once; `failsInBody`: the
+    re-trace of the body at lowering time raises. -/
+structure BuildReq where
+  name : String
+  failsInBody : Bool
+  deriving DecidableEq, Repr
+
+inductive BuildOut where
+  | function   -- an ONNX function was emitted for the call
+  | inlined    -- the patched wrapper called through: no function in the model
+  | failed
+  deriving DecidableEq, Repr
+
+/-- The wrapper (`if self.name in _IN_FUNCTION_BUILD.get(): return original_call(…)`) followed by
+    the body build; `bracket` selects try/finally (the code) or the bare restore. -/
+def buildConv (bracket : Bool) (r : BuildReq) (flag : List String) : BuildOut × List String :=
+  if flag.contains r.name then (.inlined, flag)
+  else
+    let body : List String → Except String Unit × List String :=
+      fun f => (if r.failsInBody then .error "raised" else .ok (), f)
+    let res := if bracket then bracketed r.name body flag else unbracketed r.name body flag
+    (match res.1 with | .ok _ => .function | .error _ => .failed, res.2)
+
+/-- The flag after a history of conversions. -/
+def flagAfter (bracket : Bool) (hist : List BuildReq) (flag : List String) : List String :=
+  hist.foldl (fun f r => (buildConv bracket r f).2) flag
+
 end J2O.C14
